@@ -368,7 +368,10 @@ for seg in (1 << 20, 1, 7, 512, 2048, 4095):
             if got != pl:
                 fail({'send_packet framing': len(pl)}, got[:16].hex(), pl[:16].hex())
         for pl in payloads:
-            t, body = s_.read_packet(2)
+            try:
+                t, body = s_.read_packet(2)
+            except BaseException as e:
+                t, body = 'raised ' + type(e).__name__, b''
             if (t, body) != (pl[0], pl[1:]):
                 fail({'send_packet -> read_packet': {'payload bytes': len(pl), 'segment size': seg, 'sizes': sizes}}, {'type': t, 'bytes': len(body)}, {'type': pl[0], 'bytes': len(pl) - 1})
                 break
